@@ -4,12 +4,18 @@ seeded/*/meta.json and seeded/MATRIX.json."""
 import json,glob,os,re
 here=os.path.dirname(os.path.dirname(os.path.abspath(__file__)))
 M=json.load(open(here+'/seeded/MATRIX.json'))['caught_by']
-rows=["| change | round | what it needs in order to manifest | checks that raise a VIOLATION (all 20 run, quick tier) | first harness |","|---|---|---|---|---|"]
+rows=["| change | round | what it needs in order to manifest | checks that raise a VIOLATION (quick tier; all 20 run unless marked) | first harness |","|---|---|---|---|---|"]
 for d in sorted(glob.glob(here+'/seeded/C*-?/')):
     n=os.path.basename(d.rstrip('/')); meta=json.load(open(d+'meta.json'))
     caught=M.get(n) or meta.get('caught_by') or []
-    first='missed' if meta.get('missed_by_first_harness') else 'caught'
-    rows.append(f"| {n} | {meta.get('round',1)} | {meta['needs']} | {', '.join(caught) or '-'} | {first} |")
+    scope='' if n in M else ' (own check only)'
+    if meta.get('checks_run') is None:
+        first='(not run yet)'
+    else:
+        first='missed' if meta.get('missed_by_first_harness') else 'caught'
+    if meta.get('neutralised_by'):
+        first+=f"; confirmed on {meta['base_commit']}, neutralised by the repair {meta['neutralised_by']}"
+    rows.append(f"| {n} | {meta.get('round',1)} | {meta['needs']} | {', '.join(caught) or '-'}{scope} | {first} |")
 p=here+'/DESIGN.md'
 s=open(p).read()
 b='<!-- SEED-TABLE-BEGIN -->'; e='<!-- SEED-TABLE-END -->'
